@@ -276,6 +276,13 @@ def run(ctx, replay=None):
             product("cond", env["CONDOUT"])
             hists(300, 24, ctx.seed)
     elif prop == "C17":
+        # OS limits: every request of the universe with a 300-byte segment ("a") against trees that only map "b":
+        # provokes ENAMETOOLONG in every file-system call site; only the leak bit is judged for this universe
+        lt = os.path.join(gen, "limit-trees.ndjson")
+        vlib.write_ndjson(lt, [[{"p": [], "k": "c", "d": "", "n": 0}],
+                               [{"p": [], "k": "c", "d": "", "n": 0}, {"p": ["b"], "k": "f", "d": "x", "n": 0}],
+                               [{"p": [], "k": "c", "d": "", "n": 0}, {"p": ["b"], "k": "c", "d": "", "n": 0}, {"p": ["b", "b"], "k": "f", "d": "y", "n": 0}]])
+        product("oslimits", env["REQOUT"], conc="toolong", trees=lt)
         if q:
             product("main", env["REQOUT"], treemod=4, treerem=ctx.seed % 4)
             product("fault", env["FAULTOUT"], treemod=8, treerem=ctx.seed % 8)
